@@ -116,6 +116,32 @@ def main():
         sys.exit(0 if verify(sys.argv[2]) else 1)
     elif cmd == "check":
         check(sys.argv[2], sys.argv[3] if len(sys.argv) > 3 else "quick", sys.argv[4:] or None)
+    elif cmd == "pending":
+        # verify what was never verified; (re)run checks with no verdict or a missed/check-error verdict
+        for name in sorted(os.listdir(SEEDED)):
+            mp = os.path.join(SEEDED, name, "meta.json")
+            if not os.path.exists(mp):
+                continue
+            meta = json.load(open(mp))
+            try:
+                if not meta.get("verification"):
+                    verify(name)
+                    meta = json.load(open(mp))
+                todo = [p for p in (meta.get("breaks") or [meta["property"]])
+                        if meta.get("results", {}).get(p, {}).get("verdict") in (None, "missed", "check-error")]
+                if todo:
+                    check(name, "quick", todo)
+            except Exception as ex:
+                print("%s: ERROR %r" % (name, ex))
+            sys.stdout.flush()
+    elif cmd == "table":
+        for name in sorted(os.listdir(SEEDED)):
+            mp = os.path.join(SEEDED, name, "meta.json")
+            if os.path.exists(mp):
+                meta = json.load(open(mp))
+                v = meta.get("verification", {})
+                print("%-48s confirmed=%-5s %s" % (name, v.get("confirmed"), "  ".join(
+                    "%s:%s" % (p, r.get("verdict")) for p, r in sorted(meta.get("results", {}).items()))))
     elif cmd == "all":
         for name in sorted(os.listdir(SEEDED)):
             if os.path.exists(os.path.join(SEEDED, name, "meta.json")):
